@@ -15,7 +15,7 @@ for pid in sys.argv[1:]:
          .replace("@FILES@", ", ".join(p["anchors"]["files"])))
     if os.environ.get("SEED_AVOID"):
         nd = json.load(open("/verif/seeded/needs.json"))
-        prev = [nd[k].split(" [second-round")[0] for k in (pid, pid + ".2", pid + ".3") if k in nd]
+        prev = [nd[k].split(" [second-round")[0] for k in (pid, pid + ".2", pid + ".3", pid + ".4") if k in nd]
         if prev:
             s += ("\nEarlier, independent attempts already produced these kinds of change, so do something DIFFERENT IN KIND "
                   "(another mechanism, another part of the code involved, another clause of the statement, another "
